@@ -6,22 +6,26 @@ CFG = {'lean_modules': ['ObiVerif.Props.C10'],
  'rule': 'cases = (operation, pattern, budget, indel flag, complemented?, sequence, circular?, begin, length): hand-picked corpus (every defect found — incl. '
          'the circular over-read and the FilterBestMatch sentinel witnesses with a first hit beyond position 10000 —, hits touching both ends, hits at the '
          'first position of a window with begin > 0 and straddling it, window ends inside the sequence, empty/short sequences, pattern lengths 1, 31, 32, 33, '
-         "63, 64 and 65, budgets up to 63, '#' with indels); random patterns of 1..63 positions (a fixed fraction with exactly 1, 2, 31, 32, 33, 62, 63 "
-         'positions) with IUPAC codes, [...] classes, ! and # (and arbitrary strings over the pattern alphabet for the compiler / complementer); budgets 0..4 '
-         'and, in a fixed fraction, 0..patlen+1; random sequences with 0..3 planted sites carrying 0..e+1 substitutions (or indels), the first site at offset '
-         '0 and the last one at the end in a fixed fraction of the cases, also with ambiguous symbols, upper-case letters or non-letter bytes; windows '
-         '(begin,length) random incl. negative / beyond the end, aimed at the start of a planted site (-1/0/+1) and with the window END aimed at the end of a '
-         'site (-1/0/+1); circular sequences of >= 64 symbols and (new) shorter ones, whose buffer is followed by hostile stale bytes (instances of the '
-         'pattern) written through the public BioSequence API; operations pat, rcpat, find (FindAllIndex), is (IsMatching), filter (FilterBestMatch), all '
-         '(AllMatches), best (BestMatch), locate (LocatePattern); thorough tier adds the enumeration of 42 patterns of <= 2 tokens x all 121 sequences over '
-         '{a,c,t} of length <= 4 x budgets 0..2 x {mismatch, indel} (+ circular and begin=1 variants). Every search runs on a fresh ApatSequence and on one '
-         'recycled from the previous case (results must agree). Generator statistics (S lines): kernel, patlen class, budget class, window class, hit '
-         'positions (offset 0, window start, sequence end, window end, circular origin, beyond 10000), sequence classes. non-trivial = distinct case whose '
-         'pattern compiles',
+         '63, 64 and 65, budgets 62..65, 100, 1000 and 2^30 through MakeApatPattern, BestMatch hits touching the beginning with leading pattern symbols '
+         "missing, the X-pattern and sequence-ambiguity observations, '#' with indels); random patterns of 1..63 positions (a fixed fraction with exactly 1, "
+         '2, 31, 32, 33, 62, 63 positions) with IUPAC codes, [...] classes, ! and # (and arbitrary strings over the pattern alphabet for the compiler / '
+         'complementer); budgets 0..4 and, in a fixed fraction, 0..patlen+1; random sequences with 0..3 planted sites carrying 0..e+1 substitutions (or '
+         'indels), the first site at offset 0 and the last one at the end in a fixed fraction of the cases, also with ambiguous symbols, upper-case letters or '
+         'non-letter bytes; windows (begin,length) random incl. negative / beyond the end, aimed at the start of a planted site (-1/0/+1) and with the window '
+         'END aimed at the end of a site (-1/0/+1); circular sequences of >= 64 symbols and (new) shorter ones, whose buffer is followed by hostile stale '
+         'bytes (instances of the pattern) written through the public BioSequence API; operations pat, rcpat, find (FindAllIndex), is (IsMatching), filter '
+         '(FilterBestMatch), all (AllMatches), best (BestMatch), locate (LocatePattern), budget (MakeApatPattern with a budget of 60..65536 + FindAllIndex, '
+         'run in a child process: rejected from 64 on); thorough tier adds the enumeration of 42 patterns of <= 2 tokens x all 121 sequences over {a,c,t} of '
+         'length <= 4 x budgets 0..2 x {mismatch, indel} (+ circular, begin=1 and - new - complemented-pattern variants in both modes). Every search runs on a '
+         'fresh ApatSequence and on one recycled from the previous case (results must agree). Strand symmetry is checked as a relation between two real runs: '
+         'mirrored hit lists (mismatch-only), same existence and (new) same least error count (indels). Generator statistics (S lines): kernel, patlen class, '
+         'budget class, window class, hit positions (offset 0, window start, sequence end, window end, circular origin, beyond 10000), sequence classes. '
+         'non-trivial = distinct case whose pattern compiles',
  'technique': 'Lean 4 theorems on a transcription of the C bit-parallel matcher (64-bit state words as BitVec 64) and of its Go layer + differential '
               'correspondence with the real cgo calls + independent oracle (brute-force Hamming distance at every position, brute-force / Sellers edit '
               "distance over substrings, a constrained edit-distance DP for '#' with indels, mirrored token list for the complement, reverse-complement "
-              'symmetry as a relation between two real runs)',
+              'symmetry as a relation between two real runs, in indel mode per error level); for pattern length 64 the automata are re-stated with the value '
+              'of the undefined shift as a parameter and refuted for every value)',
  'level_text': 'Proved for every pattern of 1..63 positions (IUPAC classes, negations, obligatory positions), every budget, every sequence and every window: '
                'the mismatch-only automaton (ManberSub, ManberNoErr, ManberAll without indels, FindAllIndex on a linear sequence) reports exactly the '
                'positions whose Hamming distance to the pattern, with no mismatch at a # position, is within the budget, each once, in increasing order, with '
@@ -47,37 +51,84 @@ CFG = {'lean_modules': ['ObiVerif.Props.C10'],
                '(FilterBestMatch as repaired keeps for every raw hit a hit with at most as many errors; kept hits never overlap), allMatches_spec / '
                'bestMatch_spec (composition automaton o LocatePattern on a linear sequence: every returned triple is within the budget and is a raw hit passed '
                'unchanged or, in indel mode, a span inside the sequence whose reported error count IS the edit distance between the pattern string and that '
-               'span). Still by correspondence/oracle only: completeness of AllMatches in indel mode (oracle all.iff), AllMatches/BestMatch on circular '
-               'sequences (known finding D35).',
+               'span). Third round, proved: allMatches_complete / allMatches_complete_substring / bestMatch_complete / bestMatch_matched_iff / '
+               'pure_pattern_complete (COMPLETENESS of AllMatches and BestMatch in indel mode on a linear sequence, formerly the oracle all.iff: every '
+               'substring of the window within the budget gives a raw hit, every raw hit is represented by a hit kept by FilterBestMatch with at most as many '
+               'errors and linked to it by a chain of overlapping hits, the re-alignment fragment of a kept hit - clipped at both ends of the sequence - '
+               'contains a substring witnessing its error level, so LocatePattern returns a span with at most as many errors, exactly its _samenuc distance, '
+               'minimal over all substrings of the fragment, and the budget filter keeps it; hypotheses: no # position and Compat = _samenuc agrees with every '
+               'acceptance of the compiled classes, true for letters-only patterns without X: pure_pattern_compat); samenuc_vs_compiled (the exact relation '
+               'between _samenuc and the compiled classes, decided over the generated tables), samenuc_X_differs / x_pattern_dropped (counterexample for the '
+               'pattern letter X: a match within the budget is dropped by AllMatches, BestMatch reports more errors than the budget - proposed finding); '
+               'seq_ambiguity_code_is_exact / seq_ambiguity_both_strands / errcount_differs_on_ambiguity (the IUPAC SEQUENCE side: a sequence symbol other '
+               'than a c g t is an exact code word for the C matcher - accepted by no un-negated position, by every negated one - on both strands, u excepted '
+               '(D34); _samenuc treats it as a class, so AllMatches can report fewer errors than FindAllIndex for the same occurrence); makeApatPattern_guard '
+               '/ budget_in_bounds / budget_overrun_unguarded (the budget guard of buildPattern, fix 90a9ab4: a budget >= 64 is rejected, every accepted '
+               'budget keeps ManberSub/ManberIndel inside r[2*MAX_PAT_ERR+2]); compile_grammar_full / compile_codes_full / xposition_semantics / '
+               "plain_is_documented (MakeApatPattern accepts EXACTLY the canonical lists of extended positions '!'* (Letter | '[' Letter+ ']' | '#') ['#'] - "
+               'no `plain` hypothesis - and what they compile to: A## = A# + an obligatory position accepting nothing, !# = obligatory anything, !!A = A); '
+               'circular AllMatches/BestMatch (known finding D35 stays open), exact characterisation: allMatches_circular_panic_iff, '
+               'allMatches_mismatch_is_filter (exact and mismatch-only modes are not affected), allMatches_circular_affected, allMatches_circular_inside_ok, '
+               'bestMatch_circular_char, circular_counterexamples. Fourth round, proved: the pattern-length bound - every theorem carries the explicit '
+               'hypothesis 1 <= patlen <= 63 (patlen_63_covered: the bound is reached), MakeApatPattern accepts 64 positions (len64_accepted) and there the '
+               'statement is false for EVERY value of the undefined shift 0x1L << 64: len64_no_exact_automaton / len64_not_exact (pattern A^64 on a^64 and c '
+               'a^63: the occurrence is missed or a spurious hit is reported), manberNoErr_exact_fails_at_64 (manberNoErr_exact with patlen <= 64 is refuted), '
+               'len64_d33_witness (ACGTx16 on acgtx20: ManberSub reports nothing, ManberIndel nothing or all 80 end positions, as the real code does: D33 '
+               'stays open); strand symmetry WITH INDELS (formerly the oracle find.revcomp-indel only): editDist_strand (edit distance of the complemented '
+               'pattern to d[a:b] = edit distance of the pattern to rc(d)[n-b:n-a]), match_revcomp_indel (for every error level K the complemented pattern has '
+               'a hit with <= K errors on d iff the pattern has one on rc(d)), match_revcomp_indel_nonempty, match_revcomp_indel_locus (a hit ending at pos '
+               'whose witness substring starts at a corresponds to a hit ending at the mirror image of a with at most as many errors), '
+               'match_revcomp_indel_string (for the pattern returned by ReverseComplement, every pattern string of the grammar without #); strand symmetry at '
+               "the level of the Go API on the stored bytes with the obiseq reverse complement (SeqOps.rc, C07's model): findAllIndex_revcomp (FindAllIndex of "
+               'the complemented pattern on seq = FindAllIndex of the pattern on seq.ReverseComplement() with (s,e,k) -> (n-e,n-s,k); exact and mismatch-only '
+               'mode, sequence of lower-case letters without u), findAllIndex_revcomp_string (the same for MakeApatPattern(p).ReverseComplement(), every '
+               'pattern string of the documented grammar, !, # and [...] included), findAllIndex_revcomp_indel (with indels, per error level); '
+               'findAllIndex_circular_is_extended / findAllIndex_indel_circular (FindAllIndex on a circular sequence IS FindAllIndex on the linear sequence '
+               'extended by its first min(len, MAX_PAT_LEN) symbols: every theorem about linear sequences describes the raw hits on circular ones, in every '
+               'mode). Partial: completeness of AllMatches/BestMatch is proved under Compat and without # (the complement - patterns with X, brackets, !, # - '
+               'is the documented restriction of AllMatches plus the X counterexample). Tied by correspondence/oracle only: AllMatches/BestMatch results on '
+               'circular sequences beyond the characterisation theorems (D35), pattern length 64 (result lines `unmodelled`, oracle find.*.patlen64 = D33), '
+               'complementPattern outside the documented grammar (complement_outside_grammar), strand symmetry of patterns with # in indel mode.',
  'level_note': 'Trusted: Lean kernel; the transcription Model/Apat.lean (validated differentially: compiled code words, omask, S matrix and every hit list are '
-               'compared byte for byte); the C compiler; extractor (literals only). The model follows the code as repaired by the seven C10 patches (BestMatch '
-               'end, LocatePattern start, LocatePattern short sequence, complement of !X# first, complement of negated classes; this round: circular sequence '
-               'shorter than MAX_PAT_LEN read past its end - C10-circular-short-overread -, FilterBestMatch/AllMatches lost every match when the first one '
-               'starts beyond position 10000 - C10-filterbest-first-hit-beyond-10000). Pattern length 64 (and more) is accepted by MakeApatPattern although '
-               '`0x1L << patlen` is undefined behaviour in C: reported by the oracle (find.sub.patlen64), not modelled (results of such cases are printed as '
-               '`unmodelled`). An error budget > 63 overruns the r[] array of ManberSub/Indel (not validated by MakeApatPattern): not exercised (the harness '
-               "rejects e > 63). '#' with indels: the semantics proved (indel_oblig_iff) is the one of the code as it is - asymmetric (insertion allowed "
-               'before, not after, an obligatory position) and with the start exception (A#C, one error, is found in `c` at the window start but not in `tc`); '
-               "the property statement says nothing about '#' with indels, so this is recorded as an observation, not as a finding. LocatePattern compares the "
-               'raw pattern string (brackets, !, # included) by _samenuc: allMatches_spec / bestMatch_spec speak about that string (Pattern.locPat), which is '
-               'the pattern for pure IUPAC patterns only (documented restriction of AllMatches).',
- 'trusted_base': LEAN_TB + [
-                  'extract/ (literal extraction of sDnaCode, LX_BIO_DNA_ALPHA, LX_BIO_CDNA_ALPHA, PATMASK, OBLIBIT, MAX_PAT_LEN, ALPHA_LEN, _iupac, '
-                  '_revcmpDNA)',
+               'compared byte for byte); the C compiler; extractor (literals only). The model follows the code as repaired by the ten C10 patches in '
+               'notes/patches (all committed in /repo: BestMatch end, LocatePattern start, LocatePattern short sequence, complement of !X# first, complement '
+               'of negated classes, EncodeSequence non-letter, circular sequence shorter than MAX_PAT_LEN, FilterBestMatch sentinel beyond position 10000, and '
+               '- third round - 90a9ab4 buildPattern rejects an error budget >= 64 (makeApatPattern = guard + compile; op `budget` runs MakeApatPattern with '
+               'budgets 60..65536 in a child process, outcome `err` from 64 on) and 2616fd3 BestMatch re-aligns a best indel hit with a negative raw start '
+               '(bestMatch_matched_iff; corpus cases with leading pattern symbols missing at offset 0)). Pattern length 64 (and more) is accepted by '
+               'MakeApatPattern although `0x1L << patlen` is undefined behaviour in C: reported by the oracle (find.*.patlen64 = D33), result lines printed '
+               "`unmodelled`; the theorems len64_* show that no value of the shift repairs it. '#' with indels: the semantics proved (indel_oblig_iff) is the "
+               'one of the code as it is - asymmetric (insertion allowed before, not after, an obligatory position) and with the start exception (A#C, one '
+               "error, is found in `c` at the window start but not in `tc`); the property statement says nothing about '#' with indels, so this is recorded as "
+               "an observation, not as a finding; for the same reason strand symmetry in indel mode is proved for patterns without '#' only. LocatePattern "
+               'compares the raw pattern string (brackets, !, # included) by _samenuc: allMatches_spec / bestMatch_spec / allMatches_complete speak about that '
+               'string (Pattern.locPat = the first patlen bytes of cpat), which is the pattern for letters-only patterns (documented restriction of '
+               'AllMatches). _samenuc differs from the compiled classes in two ways (samenuc_vs_compiled): the pattern letter X (matcher: any base; _samenuc: '
+               'nothing - x_pattern_dropped, harness statistics observed:all.x-pattern-match-dropped / observed:best.x-pattern-errcount>budget, proposed '
+               'finding, X is not an IUPAC code) and ambiguity codes in the SEQUENCE (matcher: exact code word; _samenuc: class - '
+               'errcount_differs_on_ambiguity, observed:all.errcount-by-samenuc, an observation: the reported count is the _samenuc edit distance of the '
+               'reported span, never larger than the raw count). match_revcomp_indel is per error level, not per position: a hit of the indel automaton is '
+               'located by its end and stands for a substring of variable length, so the two raw hit lists are not mirror images of each other.',
+ 'trusted_base': LEAN_TB + ['extract/ (literal extraction of sDnaCode, LX_BIO_DNA_ALPHA, LX_BIO_CDNA_ALPHA, PATMASK, OBLIBIT, MAX_PAT_LEN, ALPHA_LEN, _iupac, _revcmpDNA)',
                   "C compiler translation of apat_parse.c / apat_search.c / obiapat.c / libstki.c (two's-complement conversion of hit positions to int32)",
                   'brute-force Hamming / edit-distance references and the token parser of the documented pattern grammar in the harness',
                   'pkg/obiapat/verif_hooks.go (read-only accessors to the compiled pattern)'],
  'modelled': 'pkg/obiapat apat_parse.c (CheckPattern, splitPattern, valPattern, EncodePattern), apat_search.c (CreateS, ManberNoErr, ManberSub, ManberIndel, '
-             'ManberAll), obiapat.c (UpperSequence, EncodeSequence, circular extension min(seqlen, MAX_PAT_LEN), buildPattern, '
+             'ManberAll), obiapat.c (UpperSequence, EncodeSequence, circular extension min(seqlen, MAX_PAT_LEN), buildPattern with its budget guard, '
              'complementPattern/reverseSequence), pattern.go (MakeApatPattern, ReverseComplement, FindAllIndex, IsMatching, FilterBestMatch, AllMatches, '
              'BestMatch), obialign/locatepattern.go (LocatePattern, _samenuc)',
- 'assumptions': ['pattern length 1..63 (64 is undefined behaviour in C, reported separately)',
-                 'error budget <= 63 (the r[] array of ManberSub/Indel has 2*MAX_PAT_ERR+2 words; a larger budget is a stack overrun, not exercised)',
+ 'assumptions': ['pattern length 1..63 (explicit hypothesis of every theorem; 64 = MAX_PAT_LEN is accepted by the code, undefined behaviour in C, refuted by '
+                 'len64_*: D33)',
+                 'error budget <= 63: enforced by buildPattern since fix 90a9ab4 (makeApatPattern_guard, budget_in_bounds), no longer an assumption of the '
+                 'model',
                  'the search window is the one the API applies: [max(begin,0), min(begin+length+MAX_PAT_LEN, len)) (length < 0 = whole sequence)',
                  "sequence symbols are compared as the matcher specifies: a sequence letter matches a position iff it belongs to the position's class (classes "
-                 'contain only a,c,g,t unless negated); strand symmetry assumes letters only and no symbol u (obiseq complements u to a)',
-                 'compile_grammar_iff: the upper-cased pattern string has no ##, !# or !! (decidable hypothesis `plain`; CheckPattern accepts such strings, '
-                 'outside the documented grammar)',
-                 'bestMatch_spec, filterBestMatch_cover/chain, bestOf_leftmost_min: budget < 10000 (the sentinel of the Go loops)',
-                 'circular sequences in AllMatches/BestMatch are tied by correspondence only (known finding D35)',
+                 'contain only a,c,g,t unless negated: seq_ambiguity_code_is_exact); strand symmetry assumes letters only and no symbol u (obiseq complements '
+                 'u to a: D34)',
+                 'completeness of AllMatches/BestMatch (indel mode): no # position and Compat (letters-only pattern without X: pure_pattern_compat)',
+                 'strand symmetry with indels (match_revcomp_indel*): no # position, whole-sequence search',
+                 'bestMatch_spec, bestMatch_complete, filterBestMatch_cover/chain, bestOf_leftmost_min: budget < 10000 (the sentinel of the Go loops; implied '
+                 'by the budget guard)',
+                 'circular sequences in AllMatches/BestMatch: characterised exactly (allMatches_circular_*, bestMatch_circular_char), the defect itself is '
+                 'known finding D35',
                  'patterns contain no NUL byte; begin/length fit in int32']}
